@@ -563,6 +563,9 @@ class SymExec:
             b.conds = b.conds + (('F', U.src(s.test)),)
             a.events.append(('cond', 'T', U.src(s.test)))
             b.events.append(('cond', 'F', U.src(s.test)))
+            # the decision as facts about symbolic terms (independent of how the test is spelled: through a local, negated, ...)
+            a.events.extend(('fact', tv, t_) for tv, t_ in _facts(c, True))
+            b.events.extend(('fact', tv, t_) for tv, t_ in _facts(c, False))
             if isinstance(s.test, ast.UnaryOp) and isinstance(s.test.op, ast.Not):
                 # canonical form: the decision is also recorded for the un-negated test
                 inner = U.src(s.test.operand)
@@ -758,6 +761,43 @@ class SymExec:
             st.events.append(('write', f))
         elif c and c[0] in st.locals:
             st.locals[c[0]] = ('mut', st.locals[c[0]], U.src(stmt))
+
+
+_CMP_NEG = {'Gt': 'LtE', 'LtE': 'Gt', 'Lt': 'GtE', 'GtE': 'Lt', 'Eq': 'NotEq', 'NotEq': 'Eq', 'Is': 'IsNot', 'IsNot': 'Is'}
+_CMP_SWAP = {'Gt': 'Lt', 'Lt': 'Gt', 'GtE': 'LtE', 'LtE': 'GtE', 'Eq': 'Eq', 'NotEq': 'NotEq'}
+
+
+def _facts(term, value):
+    """atomic facts implied by `term` evaluating to `value`: [(T/F, comparison term in the canonical orientation Gt/GtE/Eq/Is)]"""
+    if term[0] == 'not':
+        return _facts(term[1], not value)
+    if term[0] == 'bool':
+        if (term[1] == 'And') == value:          # (a and b) true / (a or b) false: every operand decided
+            return [f for v in term[2] for f in _facts(v, value)]
+        return []
+    if term[0] == 'cmp':
+        op, l, r = term[1], term[2], term[3]
+        if op in ('Lt', 'LtE'):
+            op, l, r = _CMP_SWAP[op], r, l
+        if op in ('NotEq', 'IsNot'):
+            op, value = _CMP_NEG[op], not value
+        return [('T' if value else 'F', ('cmp', op, l, r))]
+    return [('T' if value else 'F', term)]
+
+
+def holds(events, op, l, r, start=0):
+    """True when the facts recorded from position `start` on establish  l <op> r  (op in Gt, GtE, Lt, LtE)"""
+    want = []
+    if op in ('Lt', 'LtE'):
+        op, l, r = _CMP_SWAP[op], r, l
+    want.append(('T', ('cmp', op, l, r)))
+    # l > r  <=>  not (r >= l) ;  l >= r  <=>  not (r > l)
+    want.append(('F', ('cmp', 'GtE' if op == 'Gt' else 'Gt', r, l)))
+    if op == 'GtE':
+        want.append(('T', ('cmp', 'Gt', l, r)))
+        want.append(('T', ('cmp', 'Eq', l, r)))
+        want.append(('T', ('cmp', 'Eq', r, l)))
+    return any(e[0] == 'fact' and (e[1], e[2]) in want for e in events[start:])
 
 
 class _Fork(Exception):
